@@ -11,7 +11,8 @@ CERTS = ('Generic_Cert', 'Persona_Cert', 'Casual_Cert', 'Positive_Cert', 'CertRe
 # (signature type, subject kind) pairs PGPy can sign/verify
 CASES = [(t, k) for t in CERTS for k in ('uid', 'ua')] + [
     ('Subkey_Binding', 'sub'), ('Subkey_Binding', 'primary-with-subkey'), ('PrimaryKey_Binding', 'sub'), ('PrimaryKey_Binding', 'primary-with-subkey'),
-    ('SubkeyRevocation', 'sub'), ('KeyRevocation', 'key'), ('DirectlyOnKey', 'key'), ('DirectlyOnKey', 'sub-as-key'),
+    ('SubkeyRevocation', 'sub'), ('Subkey_Binding', 'a-subkey-the-issuer-id-does-not-name'), ('PrimaryKey_Binding', 'a-subkey-the-issuer-id-does-not-name'),
+    ('SubkeyRevocation', 'a-subkey-the-issuer-id-does-not-name'), ('KeyRevocation', 'key'), ('DirectlyOnKey', 'key'), ('DirectlyOnKey', 'sub-as-key'),
     ('BinaryDocument', 'doc'), ('BinaryDocument', 'str'), ('CanonicalDocument', 'doc'), ('Standalone', 'none'), ('Timestamp', 'none'),
     ('Standalone', 'doc'), ('Timestamp', 'doc'), ('Timestamp', 'uid'), ('Standalone', 'key'), ('ThirdParty_Confirmation', 'doc')]
 
@@ -61,20 +62,27 @@ def hashdata(typename, kind, fresh_signature=False):
             r.set(ref, attr, v)
         key, sub, uid = E.VObj('pgpy.pgp.PGPKey', 'key'), E.VObj('pgpy.pgp.PGPKey', 'sub'), E.VObj('pgpy.pgp.PGPUID', 'uid')
         SIGNER = z3.Int('signer_keyid')
-        parent = lambda ex, st, o, a: [(st, {'sig': E.VNone(), 'uid': key, 'sub': key, 'key': E.VNone()}[o.ref])]
+        parent = lambda ex, st, o, a: [(st, {'sig': E.VNone(), 'uid': key, 'sub': key, 'sub2': key, 'key': E.VNone()}[o.ref])]
         r.hook('pgpy.types.ParentRef', 'parent', parent)
         r.hook('pgpy.types.ParentRef', '_parent', parent)
         # what the subject objects hash to NOW (epoch 0) and after they were changed in place (epoch 1: a second call on the same pair)
         KB2, SB2, UB2, DOC2 = [z3.Const(n + '_AFTER_THE_SUBJECT_CHANGED', B) for n in ('KEYBODY', 'SUBKEYBODY', 'UIDBODY', 'DOC')]
         st.pc += [z3.Length(KB2) >= 6, z3.Length(SB2) >= 6, z3.Length(KB2) < 65536, z3.Length(SB2) < 65536, z3.Length(UB2) < 2 ** 32]
         ep = lambda st: st.ghost.get('epoch', 0)
-        r.hook('pgpy.pgp.PGPKey', 'hashdata', lambda ex, st, o, a: [(st, E.VBytes((KB2 if ep(st) else KB) if o.ref == 'key' else (SB2 if ep(st) else SB)))])
+        # a second subkey of the same primary key; when IT is the subject (kind 'a-subkey-the-issuer-id-does-not-name': a cross-signature or
+        # binding examined against another subkey than the one its issuer id names) it is the one that is hashed - the subject, not a lookup
+        sub2 = E.VObj('pgpy.pgp.PGPKey', 'sub2')
+        SB_OTHER = z3.Const('BODY_OF_THE_OTHER_SUBKEY', B)
+        st.pc += [z3.Length(SB_OTHER) >= 6, z3.Length(SB_OTHER) < 65536]
+        r.hook('pgpy.pgp.PGPKey', 'hashdata', lambda ex, st, o, a: [(st, E.VBytes(SB_OTHER if o.ref == 'sub2' else (KB2 if ep(st) else KB) if o.ref == 'key' else (SB2 if ep(st) else SB)))])
         r.hook('pgpy.pgp.PGPUID', 'hashdata', lambda ex, st, o, a: [(st, E.VBytes(UB2 if ep(st) else UB))])
         r.hook('pgpy.pgp.PGPKey', 'is_primary', lambda ex, st, o, a: [(st, E.VBool(o.ref == 'key'))])
         r.hook('pgpy.pgp.PGPUID', 'is_uid', scn.const(E.VBool(kind != 'ua')))
         r.hook('pgpy.pgp.PGPSignature', 'signer', scn.const(E.VInt(SIGNER)))
         r.hook('pgpy.pgp.PGPSignature', 'embedded', scn.const(E.VBool(False)))
-        r.hook('pgpy.pgp.PGPKey', 'subkeys', scn.const(E.VDict([(E.VInt(SIGNER), sub)])))
+        OTHERID = z3.Int('keyid_of_the_other_subkey')
+        st.pc += [OTHERID != SIGNER]
+        r.hook('pgpy.pgp.PGPKey', 'subkeys', lambda ex, st, o, a: [(st, E.VDict([(E.VInt(SIGNER), sub), (E.VInt(OTHERID), sub2)]) if o.ref == 'key' else E.VDict([]))])
         r.hook('pgpy.packet.fields.SubPackets', '__hashbytearray__', scn.mconst(None))
         r.ex.hooks[('pgpy.packet.fields.SubPackets', '__hashbytearray__')] = scn.method_hook(lambda ex, st, o, a: [(st, ex.new_buf(st, HS))])
         mpi = z3.Int('sig_mpi')
@@ -88,7 +96,7 @@ def hashdata(typename, kind, fresh_signature=False):
             return [(st, E.VNone())]
         r.hook('pgpy.packet.packets.SignatureV4', 'update_hlen', scn.method_hook(update_hlen))
         docbuf = ex.new_buf(st, DOC)            # a bytearray document: the same object can be edited in place between two calls
-        subject = {'uid': uid, 'ua': uid, 'key': key, 'sub': sub, 'sub-as-key': sub, 'primary-with-subkey': key,
+        subject = {'uid': uid, 'ua': uid, 'key': key, 'sub': sub, 'sub-as-key': sub, 'primary-with-subkey': key, 'a-subkey-the-issuer-id-does-not-name': sub2,
                    'doc': docbuf if typename == 'BinaryDocument' and not fresh_signature else E.VBytes(DOC), 'str': E.VStr(z=DOC), 'none': E.VNone()}[kind]
         outs = r.call(sig, [subject])
         second = (typename == 'BinaryDocument' and kind == 'doc' and not fresh_signature) or (typename in ('Positive_Cert', 'Subkey_Binding', 'DirectlyOnKey') and kind in ('uid', 'sub', 'key'))
@@ -109,7 +117,7 @@ def hashdata(typename, kind, fresh_signature=False):
                 okrx = len(rx) == 1 and rx[0][0] == b'\\r?\\n' and rx[0][1] == b'\r\n' and rx[0][2].eq(DOC)
                 r.oblige(s, 'canonicalises-with-crlf-substitution/p%d' % pi, z3.BoolVal(bool(okrx)))
                 canon = rx[0][3] if rx else canon
-            spec = spec_hash(ST, typename, kind, KB, SB, UB, DOC, canon, ver, pa, ha, HS)
+            spec = spec_hash(ST, typename, kind, KB, SB_OTHER if kind == 'a-subkey-the-issuer-id-does-not-name' else SB, UB, DOC, canon, ver, pa, ha, HS)
             r.oblige(s, 'rfc4880-5.2.4/p%d' % pi, ex.seq(v, s) == spec)
             if second:
                 # no hidden state: the same signature object asked again about the same subject OBJECT, whose content has changed
